@@ -38,6 +38,8 @@ pub enum Profile {
     Sessions,
     /// events with three clients whose update progress differs
     Events3,
+    /// server ticks around 2^31 / 2^32: start offsets, gaps around the 64-tick window, jumps of 2^30
+    Wrap,
 }
 
 impl Profile {
@@ -58,6 +60,7 @@ impl Profile {
             Profile::Tight => "tight",
             Profile::Sessions => "sessions",
             Profile::Events3 => "events3",
+            Profile::Wrap => "wrap",
         }
     }
     pub fn from_name(s: &str) -> Option<Self> {
@@ -77,6 +80,7 @@ impl Profile {
             Profile::Tight,
             Profile::Sessions,
             Profile::Events3,
+            Profile::Wrap,
         ]
         .into_iter()
         .find(|p| p.name() == s)
@@ -197,6 +201,22 @@ pub fn cfg_strategy(p: Profile, thorough: bool) -> BoxedStrategy<Cfg> {
                 c.vis = 0;
                 Just(c).boxed()
             }
+            Profile::Wrap => {
+                c.policy = 0;
+                c.big_jumps = true;
+                c.track = b1;
+                c.big = b2;
+                c.refs = b3;
+                c.vis = 0;
+                prop_oneof![
+                    Just(0u32),
+                    Just(1u32 << 30),
+                    Just((1u32 << 30) + 40),
+                    (0u32..(1 << 31) - (1 << 21)),
+                ]
+                .prop_map(move |st| Cfg { start_tick: st, ..c.clone() })
+                .boxed()
+            }
             Profile::Events3 => {
                 c.events = true;
                 c.clients = 3;
@@ -264,6 +284,12 @@ pub fn step_strategy(cfg: &Cfg, p: Profile) -> BoxedStrategy<Step> {
         (if lossy { 4 } else { 6 }, (0..clients, 1..3usize).prop_map(|(client, n)| Step::DeliverAck { client, n }).boxed()),
         (2, (0..clients).prop_map(|client| Step::Connect { client }).boxed()),
     ];
+    let wrap = matches!(p, Profile::Wrap);
+    v.push((
+        w(cfg.policy == 0, if wrap { 5 } else if lossy { 1 } else { 0 }),
+        prop_oneof![3 => 2u8..12, 2 => 60u8..70, 1 => 70u8..200].prop_map(|by| Step::TickJump { by }).boxed(),
+    ));
+    v.push((w(wrap, 2), any::<u8>().prop_map(|fine| Step::BigJump { fine }).boxed()));
     v.push((w(cfg.refs, 3), (0..slots, 0..slots).prop_map(|(slot, target)| Step::SetRef { slot, target }).boxed()));
     v.push((w(cfg.refs, 1), (0..slots).prop_map(|slot| Step::DelRef { slot }).boxed()));
     v.push((w(cfg.children, 4), (0..slots, 0..slots).prop_map(|(slot, parent)| Step::SetParent { slot, parent }).boxed()));
